@@ -302,8 +302,13 @@ def make_session(M, ch, rng, sysd, mats_shared, sid, st, reuse=None, pre_use=Fal
     s.Fm[:, 0] = F0
     s.last = 0
     s.kw = dict(d0=None if s.d0 is None else s.d0.copy(), v0=None if s.v0 is None else s.v0.copy(), static_ic=s.static_ic)
+    f0arg = F0.copy()
     with _Sut("generator()", session=sid):
-        s.gen, s.d, s.v = s.ts.generator(nt, F0.copy(), **s.kw)
+        s.gen, s.d, s.v = s.ts.generator(nt, f0arg, **s.kw)
+    if ch.flip(1, 3, "F0_buffer_reused"):
+        # the caller's initial-force array is its send buffer: overwritten as soon as generator() returns
+        f0arg[:] = np.nan
+        st.fault("F0_buffer_reused")
     s.col0 = (s.d[:, 0].copy(), s.v[:, 0].copy())
     s.sent_any = False
     s.sent_cols = set()
@@ -763,5 +768,5 @@ EXPECTED_FAULTS = [
     "redo_same_force", "redo_new_force", "jump_back_1", "jump_back_far", "addon", "addon_then_advance", "addon_then_redo",
     "redo_then_advance", "addon_order0", "buffer_reuse", "closed_loop_force", "two_sessions_interleaved", "nt_1", "rf_only",
     "rb_only", "static_ic", "complex_coefficients", "f2x_probe", "addon_twice", "instance_reused", "same_instance_tsolve",
-    "same_instance_fsolve", "long_session", "force_int", "resend_stored_force", "deep_run", "f2x_phi_buffer_reused",
+    "same_instance_fsolve", "long_session", "force_int", "resend_stored_force", "deep_run", "f2x_phi_buffer_reused", "F0_buffer_reused",
 ]
